@@ -15,7 +15,7 @@ import (
 func init() {
 	register(&Rule{
 		Name:     "INDEXLOWER",
-		Doc:      "every slice/array access whose index is (a conversion of) a signed integer parameter and that is dominated by an upper-bound test of that parameter against len(…) is also dominated by a test that excludes negative values (`i < 0`, `i >= 0`, `i > c`, c >= -1) — or the parameter is unsigned",
+		Doc:      "every slice/array access whose index is (a conversion of) a signed integer parameter and whose function tests that parameter against len(…) (a dominating bound check, or the grow-then-index idiom) is also dominated by a test that excludes negative values (`i < 0`, `i >= 0`, `i > c`, c >= -1) — or the parameter is unsigned",
 		Configs:  "NP",
 		Floor:    map[string]int{"N": 2, "P": 2},
 		Controls: 1,
@@ -102,6 +102,21 @@ func runIndexLower(rc *RuleCtx) {
 						switch bo.Op {
 						case token.LSS, token.GEQ, token.GTR, token.LEQ:
 							lower = true
+						}
+					}
+				}
+				if !upper {
+					// the grow-then-index idiom: `if i >= len(s) { s = grow(s, i) }; s[i]` — the upper test exists
+					// but does not dominate the access
+					for _, ob := range fn.Blocks {
+						for _, oi := range ob.Instrs {
+							bo, ok := oi.(*ssa.BinOp)
+							if !ok {
+								continue
+							}
+							if (paramRoot(bo.X, 0) == p && mentionsLen(bo.Y, 0)) || (paramRoot(bo.Y, 0) == p && mentionsLen(bo.X, 0)) {
+								upper = true
+							}
 						}
 					}
 				}
